@@ -1,0 +1,37 @@
+//go:build verif
+
+// Accessors for the verification harness in /verif (build tag "verif").
+package ipdb
+
+import (
+	"net"
+	"time"
+
+	"git.sr.ht/~adrian-blx/psa-dhcp/lib/server/ipdb/clients"
+)
+
+// VerifSnapshot returns every entry reachable from the key map.
+func (ix *IPDB) VerifSnapshot() []clients.VerifEntry {
+	ix.Lock()
+	defer ix.Unlock()
+	return ix.clients.VerifDump()
+}
+
+// VerifRanges returns netFrom, netTo, dynFrom, dynTo.
+func (ix *IPDB) VerifRanges() (uint32, uint32, uint32, uint32) {
+	ix.Lock()
+	defer ix.Unlock()
+	return uint32(ix.netFrom), uint32(ix.netTo), uint32(ix.dynFrom), uint32(ix.dynTo)
+}
+
+func VerifFromTo(network net.IP, netmask net.IPMask) (uint32, uint32, error) {
+	a, b, err := fromTo(network, netmask)
+	return uint32(a), uint32(b), err
+}
+
+func (ix *IPDB) VerifToUip(ip net.IP) (uint32, error) {
+	n, err := ix.toUip(ip)
+	return uint32(n), err
+}
+
+var _ = time.Now
